@@ -5,7 +5,7 @@ from .common import (
 PID = 'C10'
 ENGINE = 'E1'
 LEVEL = 'exploration'
-RULE = ('One case = generated workflow with retries and failing jobs; messages of one job may overtake each other, be duplicated, delayed beyond the next submission or dropped, and polls answer with the job state at answer time. After every processed message the task state is compared with the state before (stale submit number => unchanged; backward message => unchanged + a poll); at the end the recorded outputs of every instance are compared with the true outcome of its latest job. Distinct = distinct (program, schedule digest); non-trivial = a message from an older submission or a backward message was actually delivered.')
+RULE = ('One case = generated workflow with retries and failing jobs; messages of one job may overtake each other, be duplicated, delayed beyond the next submission or dropped, and polls answer with the job state at answer time. After every processed message the task state is compared with the state before (stale submit number => unchanged; backward message => unchanged + a poll); at the end the recorded outputs of every instance are compared with the true outcome of its latest job. A share of the cases reloads the unchanged definition once in mid-run. Distinct = distinct (program, schedule digest); non-trivial = a message from an older submission or a backward message was actually delivered.')
 ASSUMPTIONS = [
     'jobs, polls, submissions, message transport and the clock are simulated',
     'reference model / invariants cover the generated workflow sub-language',
